@@ -271,3 +271,48 @@ Proof.
   split; [vm_compute; reflexivity|].
   eexists. eexists. split; [vm_compute; reflexivity|]. split; [vm_compute; reflexivity|]. discriminate.
 Qed.
+
+(* ---------- an exchange that is asked twice: the reply value handed to the second attempt ---------- *)
+(* A command may take several requests (the service asks again after a failure).  The reading must be the reply that DECIDED the
+   exchange, i.e. the last one.  With a fresh reply value per attempt that is [reading] of the last reply.  Handing the SAME reply
+   value to the next attempt after a reply had been decoded into it is [readings_reused]: the failure's ErrorDescription / FieldError
+   and its repeated sub-parameters stay.  Witness: GetReaderConfigResponse with status 401 (R_DeviceError), description "busy", a
+   FieldError and one AntennaProperties, then the successful reply of [config_reply]. *)
+Definition config_failure : value :=
+  VStruct true 12 [] [VStruct false 287 [VNum 401; VBytes [98; 117; 115; 121]] [VOpt (Some (VStruct false 288 [VNum 3; VNum 101] [])); VOpt None]; VOpt None;
+                      VList [VStruct false 221 [VNum 0; VNum 7; VNum 0] []]; VList []; VOpt None; VOpt None; VOpt None;
+                      VOpt None; VOpt None; VList []; VList []; VOpt None; VList []].
+
+Example config_failure_wf : wfv llrp_table config_failure /\ text_ok llrp_jtable config_failure = true /\ depth config_failure = 3%nat.
+Proof. split; [apply wfvb_sound; vm_compute; reflexivity|]. split; vm_compute; reflexivity. Qed.
+
+Definition last_reading (t : table) (jt : jtable) (fuel : nat) (tid : N) (attempts : list bytes) : option json :=
+  last (map (reading t jt fuel tid) attempts) None.
+
+(* for EVERY exchange — any number of earlier answers of any content — that ends with the encoding of a well-formed message *)
+Theorem exchange_reading_is_of_deciding_reply t jt fuel tid earlier v bs :
+  wf_schema t = true -> jt_ok t jt = true -> sent t jt fuel v (tid, bs) ->
+  is_reading_of jt v (last_reading t jt fuel tid (earlier ++ [bs])).
+Proof.
+  intros Hwf Hok Hs. unfold last_reading. rewrite map_app. cbn [map]. rewrite last_last.
+  pose proof (readings_are_of_their_replies t jt fuel [v] [(tid, bs)] Hwf Hok (Forall2_cons _ _ Hs (Forall2_nil _))) as H.
+  inversion H; subst. assumption.
+Qed.
+
+Theorem retry_into_same_reply_refuted :
+  exists f s bf bs, wfv llrp_table f /\ wfv llrp_table s /\ encode llrp_table f = Some bf /\ encode llrp_table s = Some bs /\
+    (* a fresh reply value per attempt: the reading is the JSON form of the reply that decided the exchange *)
+    last_reading llrp_table llrp_jtable 3 12 [bf; bs] = to_json llrp_jtable s /\
+    (* the same reply value for both attempts: it is not *)
+    exists j, last (readings_reused llrp_table llrp_jtable 3 12 (zero_of llrp_table 3 true 12) [bf; bs]) None = Some j /\
+              Some j <> to_json llrp_jtable s.
+Proof.
+  exists config_failure, config_reply.
+  destruct (encode llrp_table config_failure) as [bf|] eqn:Ef; [|vm_compute in Ef; discriminate].
+  destruct (encode llrp_table config_reply) as [bs|] eqn:Es; [|vm_compute in Es; discriminate].
+  exists bf, bs. split; [exact (proj1 config_failure_wf)|]. split; [exact (proj1 config_reply_wf)|].
+  split; [reflexivity|]. split; [reflexivity|].
+  vm_compute in Ef. injection Ef as <-. vm_compute in Es. injection Es as <-.
+  split; [vm_compute; reflexivity|].
+  eexists. split; [vm_compute; reflexivity|]. vm_compute. discriminate.
+Qed.
